@@ -146,7 +146,14 @@ def run(run):
     glob = [n for n in ast.walk(mod.tree) if isinstance(n, (ast.Global, ast.Nonlocal))]
     run.check("R2", not glob, "no global state in signonetime", key="signonetime|global", where=mod.relpath,
               message="signonetime uses global/nonlocal state: the key may be kept between runs")
-    topassign = [n for n in mod.tree.body if isinstance(n, (ast.Assign, ast.AnnAssign))]
+    # a name bound once, at module level, to a literal text / number is a constant, not a place where a key could stay
+    def _literal_const(n):
+        if not (isinstance(n, ast.Assign) and len(n.targets) == 1 and isinstance(n.targets[0], ast.Name) and isinstance(n.value, ast.Constant)
+                and isinstance(n.value.value, (str, int, float, bytes, bool, type(None)))):
+            return False
+        nm = n.targets[0].id
+        return sum(1 for x in ast.walk(mod.tree) if isinstance(x, ast.Name) and x.id == nm and isinstance(x.ctx, (ast.Store, ast.Del))) == 1
+    topassign = [n for n in mod.tree.body if isinstance(n, (ast.Assign, ast.AnnAssign)) and not _literal_const(n)]
     run.check("R2", not topassign, "no module-level variables", key="signonetime|module-vars", where=mod.relpath,
               message=f"signonetime has module-level variables: {[norm(n)[:40] for n in topassign]}")
     imports_cache = [k for k, v in mod.imports.items() if "functools" in str(v) or "cache" in k.lower()]
@@ -247,6 +254,27 @@ def run(run):
             for wn in g.nodes_of(wr[0]):
                 data = {_strip(x) for x in PV.expand_consistent(so, None, wr[0].args[0], wn, stop=STOP)}
             stop_pairs.append((path, data, w))
+    from sa.canon import template_parts
+    locs_so = set(PV.defs(so, None)) | set(so.params)
+
+    def tpl(t):
+        """a file name built as f"{x}.sig", x + ".sig", "%s.sig" % x or with a module constant for the suffix is one template"""
+        try:
+            e = fold_consts(P, ast.parse(t, mode="eval").body, so, None, locals_=locs_so)
+        except SyntaxError:
+            return t
+        parts = template_parts(e, strip_str=False)
+        if not parts or not any(k == "lit" for k, _ in parts):
+            return t
+        merged = []
+        for k, v in parts:
+            if k == "lit" and merged and merged[-1][0] == "lit":
+                merged[-1] = ("lit", merged[-1][1] + v)
+            elif not (k == "lit" and v == ""):
+                merged.append((k, _strip(v) if k == "expr" else v))
+        return "TEMPLATE" + repr(merged)
+    stop_pairs = [({tpl(x) for x in p[0]}, p[1], p[2]) for p in stop_pairs]
+    want_sig = ({tpl(x) for x in want_sig[0]}, want_sig[1])
     found_sig = [p for p in stop_pairs if p[0] == want_sig[0]]
     found_pub = [p for p in stop_pairs if p[0] == want_pub[0]]
     run.check("R3", len(found_sig) == 1 and found_sig[0][1] == want_sig[1], "'<app>.sig' receives that app's signature (hex)",
